@@ -92,7 +92,7 @@ PROPS.update({
     "C04": {
         "level": "exploration",
         "rule": "maps with heavy position duplication, built in shuffled order by both constructors; query sweep = every token position +-1 column, column 0 / u32::MAX on every line with or without tokens, lines before/after; histories = chains of 1..8 map-producing operations with the invariants re-checked after each; exhaustive sub-space: every insertion sequence of <= 4 tokens on a 2x3 grid x all grid queries; non-trivial = map with >= 2 tokens; distinct by model hash / enumeration",
-        "exhaustive_claim": True,
+        "exhaustive_claim": False,  # an exhaustive sub-space plus sampling: see exhaustive_subspaces in the evidence
         "steps": [MAIN, fast(), asan(scale=10)],
         "required_buckets": {"all": ["lookup:exact-hit-on-position-with>=3-copies", "lookup:before-first-token->None", "lookup:from-later-line",
                                      "lookup:u32::MAX-query", "lookup:inexact-hit", "producer:rewrite", "producer:flatten",
@@ -117,7 +117,7 @@ PROPS.update({
     "C07": {
         "level": "exploration",
         "rule": "maps with range flags: every flag subset of every shape with <= 3 lines, <= 6 tokens per line, <= 8 (quick) / 10 (thorough) tokens; explicit shapes (first/last on line, index 15..100, all set, after k duplicates / k same-position tokens, columns near u32::MAX); random maps; each built three ways, serialised, re-read, and swept with lookups on the token's line, after it and from later lines; non-trivial = >= 1 range token; distinct by model hash",
-        "exhaustive_claim": True,
+        "exhaustive_claim": False,  # an exhaustive sub-space plus sampling: see exhaustive_subspaces in the evidence
         "steps": [MAIN, fast(scale=50), asan(scale=10),
                   miri(flags="-Zmiri-disable-isolation -Zmiri-tree-borrows", tiers=("thorough",))],
         "required_buckets": {"all": ["range:first-on-line(line>0)", "range:first-on-line(line=0)", "range:last-on-line",
@@ -155,7 +155,7 @@ PROPS.update({
     "C10": {
         "level": "exploration",
         "rule": "pairs (original map, adjustment map): exhaustive over a 2x4 grid (every subset (quick) / multiset (thorough) of <= 3 original tokens x every set of <= 2 adjustment tokens with any source and destination cell), plus random grids up to 6x30 with up to 25 tokens a side and duplicated positions; non-trivial = at least one non-empty overlap; distinct by enumeration / case hash",
-        "exhaustive_claim": True,
+        "exhaustive_claim": False,  # an exhaustive sub-space plus sampling: see exhaustive_subspaces in the evidence
         "steps": [MAIN, fast(scale=30), asan(scale=5)],
         "required_buckets": {"all": ["adjustment-stretch-inside-original(split)", "original-stretch-swallowed", "original-stretch-without-overlap(disjoint)",
                                      "tie-at-stretch-start", "negative-column-displacement", "line-displacement",
@@ -195,7 +195,7 @@ PROPS.update({
     "C15": {
         "level": "exploration",
         "rule": "every text over {a, e-acute, astral emoji, space, LF, CR} of length 0..6 (quick) / 0..8 (thorough), each under 9 request orders on fresh/cloned views, and every (line, column, span) triple with column, span <= units+2 plus 2^31 and 2^32-1; random longer texts; non-trivial = >= 2 lines or a non-ASCII character; distinct by enumeration / text hash",
-        "exhaustive_claim": True,
+        "exhaustive_claim": False,  # an exhaustive sub-space plus sampling: see exhaustive_subspaces in the evidence
         "steps": [MAIN, fast(scale=50), miri(mode="miri"), asan(scale=50), valgrind(mode="valgrind")],
         "required_buckets": {"all": ["terminator:LF-at-start", "terminator:LF-at-end", "terminator:LF-doubled", "terminator:CR-at-start",
                                      "terminator:CR-at-end", "terminator:CR-doubled", "terminator:CRLF-at-start", "terminator:CRLF-at-end",
